@@ -154,11 +154,23 @@ def load_corpus(kind=None):
 
 
 def cores(kind=None, max_n=None):
+    """sample a mined core.  kind=None: first pick a kind uniformly (so the rare kinds
+    are not drowned by the frequent ones), then a network of that kind."""
+    if kind is None:
+        load_corpus()
+        kinds = sorted({k for k, _ in _CORPUS_CACHE["all"]})
+        alts = [cores(k, max_n) for k in kinds]
+        alts = [a for a in alts if a is not None]
+        return st.one_of(*alts) if alts else None
+    if isinstance(kind, (list, tuple)):
+        alts = [cores(k, max_n) for k in kind]
+        alts = [a for a in alts if a is not None]
+        return st.one_of(*alts) if alts else None
     nets = load_corpus(kind)
     if max_n is not None:
         nets = [x for x in nets if len(x["names"]) <= max_n]
     if not nets:
-        return st.nothing()
+        return None
     return st.sampled_from(nets)
 
 
@@ -304,18 +316,18 @@ def networks(max_n=6, core_weight=3, kinds=None, min_n=1):
     )
     core = cores(kinds, max_n=max_n)
     alts = [base, base]
-    if core is not st.nothing() and load_corpus(kinds):
-        core_small = cores(kinds, max_n=small)
-        comb = st.one_of(
-            core,
-            unions(core_small, bistable(), max_n),
-            unions(bistable(), core_small, max_n),
-            gated(core_small, max_n),
-            cascade(bistable(), core_small, max_n),
-            cascade(core_small, motif_rich(max_n=2), max_n),
-            permuted(core),
-        )
-        alts += [comb] * core_weight
+    core_small = cores(kinds, max_n=small)
+    if core is not None:
+        comb = [core, core, permuted(core)]
+        if core_small is not None:
+            comb += [
+                unions(core_small, bistable(), max_n),
+                unions(bistable(), core_small, max_n),
+                gated(core_small, max_n),
+                cascade(bistable(), core_small, max_n),
+                cascade(core_small, motif_rich(max_n=2), max_n),
+            ]
+        alts += [st.one_of(*comb)] * core_weight
     alts.append(unions(motif_rich(max_n=small), motif_rich(max_n=3), max_n))
     alts.append(cascade(motif_rich(max_n=3), uniform_k(min_n=1, max_n=3), max_n))
     return st.one_of(*alts)
